@@ -25,8 +25,8 @@ MANIFEST = dict(
          "every run by random and exhaustive-short histories over aliased lists, dicts (with/without default), strings, vectors, bytes "
          "and struct instances, compared after every statement; the machine is tied to /repo by C02's Rc-graph comparison.",
     note="Theorems cover the fragment `frag` (slot assignment, `every` assignment through slices, op-assign with append/++/+/|./-., "
-         "pop/remove/consume, swap, update expressions, mutating calls, getter closures): for-loops and the builtins || and "
-         "|.. are NOT covered by the theorems, only by the correspondence (notes/C01.md). Trusted: Coq kernel; hand-written machine "
+         "pop/remove/consume, swap, for-loops, update expressions, mutating calls, getter closures): the builtins || and |.. as "
+         "op-assign operators are NOT covered by the theorems, only by the correspondence (notes/C01.md). Trusted: Coq kernel; hand-written machine "
          "Rc/Cow.v and spec Rc/ValueSem.v (tie to the code is differential testing on generated histories + C02's graph isomorphism); "
          "extraction + OCaml runner; Rust harness; Python generator/renderer. Builtins other than the consuming ones are outside the model.",
     design="6-C01")
